@@ -1,2 +1,4 @@
+/* the log sub-command is served by the conf fork server (events L and M): see e2_conf.c */
 #include "src/common.h"
-int e2_log_main(int argc, char **argv) { (void)argc; (void)argv; return 2; }
+int e2_conf_main(int argc, char **argv);
+int e2_log_main(int argc, char **argv) { return e2_conf_main(argc, argv); }
